@@ -66,6 +66,9 @@ C14_EPOLL = [
     H("ioep", "ep_cancel_w", 3, 4, args=[m], **{"cache-bits": 24}) for m in (0, 1, 2)] + [
     H("ioep", "ep_reuse", 3, 4, args=[m], **{"cache-bits": 24}) for m in (0, 1)] + [
     H("ioep", "ep_fault", 2, 3, args=list(a)) for a in ((0, 0, 1, 5), (0, 0, 0, 5), (0, 1, 1, 5), (0, 1, 0, 5), (1, 0, 1, 5), (1, 0, 0, 5), (1, 1, 1, 5), (1, 1, 0, 5), (0, 0, 1, 9), (1, 0, 1, 32))]
+C14_TIMER3 = [
+    H("ioep", "ep_timer3", 1, 2, args=[1, 1], **{"cache-bits": 24}), H("iour", "ur_timer3", 1, 2, args=[1, 1], **{"cache-bits": 24}),
+] + [H(e, h, 1, 2, args=list(a), thorough_only=True, weight=2, **{"cache-bits": 24}) for (e, h) in (("ioep", "ep_timer3"), ("iour", "ur_timer3")) for a in ((0, 0), (1, 0), (2, 0), (2, 1))]
 C14_URING = [
     H("iour", "uring_conf", args=[3]), H("iour", "uring_conf", args=[4], thorough_only=True, weight=3),
     H("iour", "ur_sched", 3, 4, args=[2]), H("iour", "ur_sched", 3, 4, args=[1]),
@@ -79,7 +82,7 @@ C14_URING = [
     H("iour", "ur_fault", 2, 3, args=[0, 5]), H("iour", "ur_fault", 2, 3, args=[1, 5]), H("iour", "ur_fault", 2, 3, args=[0, 9]),
 ]
 CHECKS = {
-    "C14": {"harnesses": C14_EPOLL + C14_URING, "deadline": {"quick": 900, "thorough": 4000}},
+    "C14": {"harnesses": C14_EPOLL + C14_URING + C14_TIMER3, "deadline": {"quick": 900, "thorough": 4000}},
     "C20": {"harnesses": C20_HARNESSES, "configs": {"quick": ["c17rel", "c20dbg", "c17dbgv", "c20relv"], "thorough": ALL_CONFIGS},
             "header_matrix": True, "deadline": {"quick": 600, "thorough": 4500}},
     "C19": {"harnesses": C19_HARNESSES},
@@ -112,7 +115,7 @@ CHECKS = {
             H("timers", "tim_unsafe", 0, 0),
             H("timers", "tim_clockmath"),
             H("sched", "sch_timed_plain", 2, 3),
-        ],
+        ] + C14_TIMER3[:2],
     },
     "C13": {"harnesses": [H("streams", "strm_seq", args=[a]) for a in range(12)] + [H("streams", "strm_sources"),
                           H("strmrace", "strm_race_stopimm", 3, 4, args=[0]), H("strmrace", "strm_race_stopimm", 3, 4, args=[1]),
@@ -244,7 +247,62 @@ def tsan_items(items, q=1, t=2):
         seen.add(key)
         d = dict(h)
         d.update({"flavour": "tsan", "quick": min(h.get("quick", 2), q), "thorough": min(h.get("thorough", 3), t), "weight": 0.4})
-        d.pop("thorough_only", None)
+        out.append(d)
+    return out
+
+
+# ---- store-buffer (x86-TSO) pass --------------------------------------------------------------------------------------
+# The same threaded harnesses once more with --tso: a non-seq_cst store may stay in its thread's store buffer (one unit of
+# the budget per delayed store), so that code which needs a seq_cst fence / store between a store and a later load (Dekker
+# patterns: v2::async_mutex unlock vs. lock, event set vs. wait ...) is explored with the store->load reordering the
+# hardware really performs.  Sequentially consistent exploration can never see a removed fence.
+TSO_EXES = TSAN_EXES
+
+
+TSO_SKIP = {"race_lvss", "canc_basic", "expr_known_lvss", "ur_cq_budget"}   # demonstrate recorded findings: nothing to add in store-buffer mode
+TSO_THOROUGH_ONLY = {"race_compose", "sch_pool", "ep_pipe", "ep_cancel_w", "ep_reuse", "ep_fault", "ur_file", "ur_cancel_w", "ur_full", "ur_fault", "ur_cq_budget_feed"}
+TSO_QUICK_PROPS = {"C03", "C06", "C07", "C08", "C09", "C10", "C13", "C14", "C15", "C16", "C19"}
+
+
+def tso_items(items, prop, q=2, t=3):
+    out, seen = [], set()
+    for h in items:
+        if h["exe"] not in TSO_EXES or h["harness"] in SEQUENTIAL or h.get("flavour") == "tsan" or h.get("tso") or h["harness"] in TSO_SKIP:
+            continue
+        key = (h["exe"], h["harness"], tuple(h.get("args", [])))
+        if key in seen:
+            continue
+        seen.add(key)
+        d = dict(h)
+        d.update({"tso": True, "quick": min(h.get("quick", 2), q), "thorough": min(h.get("thorough", 3), t), "weight": 0.5})
+        d.setdefault("cache-bits", 24)
+        if prop not in TSO_QUICK_PROPS or h["harness"] in TSO_THOROUGH_ONLY or (h["harness"] == "tim_three" and h.get("args") != [0, 0]):
+            d["thorough_only"] = True
+        out.append(d)
+    return out
+
+
+# ---- spurious wake-ups ---------------------------------------------------------------------------------------------------
+# Harnesses whose library code waits on a condition variable (manual_event_loop, timed_single_thread_context,
+# static_thread_pool, new_thread_context) once more with --spurious: a wait may return without a notification.
+SPURIOUS_HARNESSES = {"sch_loop", "sch_loop_stop", "sch_loop_token", "sch_single", "sch_pool", "sch_pool_stop", "sch_newthread", "sch_timed_plain",
+                      "tim_single", "tim_three"}
+
+
+def spurious_items(items, q=2, t=3):
+    out, seen = [], set()
+    for h in items:
+        if h["harness"] not in SPURIOUS_HARNESSES or h.get("flavour") == "tsan" or h.get("tso") or h.get("spurious"):
+            continue
+        key = (h["exe"], h["harness"], tuple(h.get("args", [])))
+        if key in seen:
+            continue
+        seen.add(key)
+        d = dict(h)
+        d.update({"spurious": True, "quick": min(h.get("quick", 2), q), "thorough": min(h.get("thorough", 3), t), "weight": 0.5})
+        d.setdefault("cache-bits", 24)
+        if h["harness"] in ("tim_three",) or (h["harness"] == "tim_single" and h.get("args") not in ([2, 3, 0, 0], [4, 4, 0, 0], [4, 2, 1, 1])) or (h["harness"] == "sch_pool" and h.get("args") != [1, 1]):
+            d["thorough_only"] = True
         out.append(d)
     return out
 
@@ -252,5 +310,8 @@ def tsan_items(items, q=1, t=2):
 for _p, _spec in CHECKS.items():
     if _p == "C20":
         continue
-    _spec["harnesses"] = _spec["harnesses"] + tsan_items(_spec["harnesses"])
+    _base = _spec["harnesses"]
+    if _p in ("C06", "C07"):
+        _base = _base + spurious_items(_base)
+    _spec["harnesses"] = _base + tsan_items([h for h in _base if not h.get("spurious")]) + tso_items([h for h in _base if not h.get("spurious")], _p)
 
